@@ -23,7 +23,13 @@ assert os.path.realpath(engine.__file__).startswith(os.path.realpath(_src)), \
     'yldprolog imported from %s, expected %s' % (engine.__file__, _src)
 
 class ImplBudget(Budget):
-    pass
+    """the implementation made more than 10x + 500 the calls the reference needed: it does not terminate where the
+    reference did"""
+
+
+class ImplWork(Budget):
+    """the implementation's term copying exceeded its work budget (exponential tree copying): the case is discarded as
+    too expensive, it is NOT evidence of a wrong answer"""
 
 
 # ---------------------------------------------------------------- variable registry
@@ -55,7 +61,7 @@ def _functor_get_value(self):
     WORK['n'] += 1
     if WORK['limit'] is not None and WORK['n'] > WORK['limit']:
         WORK['n'] = 0
-        raise ImplBudget('term-copying work budget')
+        raise ImplWork('term-copying work budget')
     return _orig_functor_get_value(self)
 
 
@@ -79,7 +85,7 @@ class BudgetYP(YP):
         self._n = 0
         self._budget = budget
         WORK['n'] = 0
-        WORK['limit'] = 3000 * budget
+        WORK['limit'] = 100 * budget + 200000
         super().__init__()
 
     def query(self, name, args):
